@@ -83,6 +83,46 @@ def run(ctx):
                 continue
             ctx.report(r_casc, k, "removing a %s (%s) never consults %s, which records annotations that depend on it: those annotations survive with a dangling reference" % (kind, fn.qual, idx), fn.file, fn.line)
 
+    # ---------------- AFTER (path rule on the MIR of the two routines that perform the removal themselves)
+    r_after = ctx.rule("C02.AFTER", "in remove_key / remove_data no path from the removal of the item itself (StoreFor::remove) to a successful return bypasses the reverse indices that name its dependents: each is consulted before the removal on every path, or after it on every non-error path")
+    import json as _json
+    n_after = 0
+    for htype, (kind, (fname, sty, tr)) in ROUTINES.items():
+        if tr:
+            continue
+        try:
+            b = prog.one(r"^annotationstore::AnnotationStore::%s$" % fname)
+        except Exception as e:
+            ctx.anchor_missing(r_after, str(e))
+            continue
+        ctx.functions_analysed.add(b.id)
+        removals = [bi for bi, t in b.calls() if (mirq.callee_of(t)[0] or "") == "store::StoreFor::remove" and not b.blocks[bi].get("cleanup")]
+        errs = set(bi for bi, t in b.calls() if (mirq.callee_of(t)[0] or "").endswith("FromResidual::from_residual"))
+        rets = [bi for bi, blk in enumerate(b.blocks) if blk["t"]["t"] == "return"]
+        if not removals:
+            ctx.anchor_missing(r_after, "call of StoreFor::remove in %s" % fname)
+            continue
+        for idx, keys in sorted(indices.items()):
+            if htype not in keys or (kind, idx) in SUBSTITUTE:
+                continue
+            reads = set(bi for bi, blk in enumerate(b.blocks) if not blk.get("cleanup") and ('"n": "%s"' % idx) in _json.dumps(blk))
+            for ri, rb in enumerate(removals):
+                n_after += 1
+                k = "%s:%s#%d" % (kind, idx, ri + 1)
+                before = any(b.dominates(x, rb) for x in reads if x != rb)
+                escape = None
+                tgt = b.blocks[rb]["t"].get("target")
+                if not before and tgt is not None:
+                    avoid = reads | errs
+                    for rt in rets:
+                        if tgt == rt or (tgt not in avoid and b.can_reach(tgt, rt, avoid=avoid)):
+                            escape = rt
+                            break
+                r_after.hit(k, sample={"routine": fname, "index": idx, "removal_block": rb, "consulted_before": before, "bypass": escape is not None})
+                if escape is not None:
+                    ctx.report(r_after, "%s:%s" % (kind, idx), "%s removes the %s (StoreFor::remove, line %s) and can return successfully without consulting %s on that path: annotations that depend on the removed %s survive with a dangling reference" % (fname, kind, b.blocks[rb]["t"].get("line"), idx, kind), b.file, b.blocks[rb]["t"].get("line"))
+    ctx.floor(r_after, n_after, 2, "removal sites x dependency indices")
+
     # ---------------- DEDUP
     r_dedup = ctx.rule("C02.DEDUP", "a cascade that gathers annotation handles from several index rows removes each annotation once (a set), or tolerates repeats (presence test before each removal)")
     n_dd = 0
